@@ -22,6 +22,9 @@ Assignment expressions elsewhere (right operand of and/or, comprehensions) are l
     `is` for None/True/False, isinstance for class patterns without sub-patterns (other patterns: the statement is left alone)
   * for x in itertools.chain.from_iterable(f(y) for y in Y): body   (no break, no else)   -> for y in Y: for x in f(y): body
   * getattr(x, 'lit', None)  -> (x.lit if hasattr(x, 'lit') else None)
+  * a private module level constant (_NAME bound once to a literal, or to a tuple / list of literals and dotted names) read inside a
+    function that has no local of that name   -> the literal
+  * in a loop that is unrolled: a guard `if t: continue` at the top level of the body   -> `if not t: <rest of the body>`
   * collections.deque(xs) without maxlen -> list(xs); q.popleft() -> q.pop(0); q.appendleft(x) -> q.insert(0, x)   (a work list is read as a list)
   * operator.itemgetter(i, j) / operator.attrgetter('a')   -> lambda s: (s[i], s[j]) / lambda o: o.a   (same value for every call)
   * P = functools.partial(F, *a, **k) at module level (bound once) ... P(*b, **l)   -> F(*a, *b, **k, **l)  (l overrides k)
@@ -254,8 +257,12 @@ class Normaliser(ast.NodeTransformer):
 
     def visit_Match(self, st):
         subj = st.subject
+        pre = []
         if not _simple(subj):
-            return self.generic_visit(st)
+            # the subject is evaluated once: bind it to a fresh local first
+            tmp = "_match_subject_%d" % getattr(st, "lineno", 0)
+            pre = [ast.copy_location(ast.Assign(targets=[ast.Name(id=tmp, ctx=ast.Store())], value=subj, lineno=st.lineno), st)]
+            subj = ast.copy_location(ast.Name(id=tmp, ctx=ast.Load()), st.subject)
 
         def test_of(pat):
             if isinstance(pat, ast.MatchValue):
@@ -296,7 +303,9 @@ class Normaliser(ast.NodeTransformer):
         if top is None:
             return self.generic_visit(st)
         ast.fix_missing_locations(top)
-        return self.visit(top)
+        r = self.visit(top)
+        r = r if isinstance(r, list) else [r]
+        return [self.visit(p0) for p0 in pre] + r
 
     def visit_While(self, st):
         new, named = _hoist_leading_walrus(st.test)
@@ -423,7 +432,35 @@ class Normaliser(ast.NodeTransformer):
         t = ast.unparse(fn)
         return t in ("chain.from_iterable", "itertools.chain.from_iterable")
 
+    @staticmethod
+    def _without_guard_continue(body):
+        """body with every top level `if t: continue` turned into `if not t: <rest>`; None when a continue remains elsewhere"""
+        out = []
+        for i, b in enumerate(body):
+            if isinstance(b, ast.If) and not b.orelse and len(b.body) == 1 and isinstance(b.body[0], ast.Continue):
+                rest = Normaliser._without_guard_continue(body[i + 1:])
+                if rest is None:
+                    return None
+                if rest:
+                    neg = ast.copy_location(ast.UnaryOp(op=ast.Not(), operand=b.test), b.test)
+                    out.append(ast.copy_location(ast.If(test=neg, body=rest, orelse=[]), b))
+                return out
+            if any(isinstance(y, ast.Continue) for y in ast.walk(b)) and not isinstance(b, (ast.For, ast.While)):
+                return None
+            out.append(b)
+        return out
+
     def visit_For(self, st):
+        # a literal table loop whose body only uses `continue` as a top level guard can be unrolled as well
+        it0 = self.const_tables.get(st.iter.id) if isinstance(st.iter, ast.Name) else st.iter
+        if isinstance(it0, (ast.Tuple, ast.List)) and not st.orelse and any(isinstance(y, ast.Continue) for b in st.body for y in ast.walk(b)):
+            nb = self._without_guard_continue(st.body)
+            if nb:
+                probe = copy.copy(st)
+                probe.iter = copy.deepcopy(it0)
+                probe.body = nb
+                if _pairs_unrollable(probe) or _loop_unrollable(probe):
+                    st.body = nb
         # a loop over a module level table of literals (bound once, never re-bound) is the loop over that literal
         if isinstance(st.iter, ast.Name) and st.iter.id in self.const_tables and isinstance(self.const_tables[st.iter.id], (ast.Tuple, ast.List)):
             lit = copy.deepcopy(self.const_tables[st.iter.id])
@@ -528,7 +565,75 @@ class Normaliser(ast.NodeTransformer):
         return st
 
 
+def _literal_like(v, depth=0):
+    if isinstance(v, ast.Constant):
+        return True
+    if isinstance(v, (ast.Tuple, ast.List)) and depth < 2:
+        return all(_literal_like(e, depth + 1) or _simple(e) for e in v.elts)
+    return False
+
+
+class _InlinePrivateConstants(ast.NodeTransformer):
+    """constant propagation of private module level constants into the functions that read them"""
+    def __init__(self, tree):
+        bound = {}
+        for st in tree.body:
+            if isinstance(st, (ast.FunctionDef, ast.AsyncFunctionDef, ast.ClassDef)):
+                continue
+            for y in ast.walk(st):
+                if isinstance(y, ast.Name) and isinstance(y.ctx, (ast.Store, ast.Del)):
+                    bound[y.id] = bound.get(y.id, 0) + 1
+        glob = set(z for y in ast.walk(tree) if isinstance(y, ast.Global) for z in y.names)
+        self.consts = {}
+        for st in tree.body:
+            if isinstance(st, ast.Assign) and len(st.targets) == 1 and isinstance(st.targets[0], ast.Name):
+                n = st.targets[0].id
+                if n.startswith("_") and not n.startswith("__") and bound.get(n) == 1 and n not in glob and _literal_like(st.value):
+                    self.consts[n] = st.value
+        self.shadow = [set()]
+
+    def _locals(self, fn):
+        out = set(a.arg for a in fn.args.posonlyargs + fn.args.args + fn.args.kwonlyargs)
+        if fn.args.vararg:
+            out.add(fn.args.vararg.arg)
+        if fn.args.kwarg:
+            out.add(fn.args.kwarg.arg)
+        for y in ast.walk(fn):
+            if isinstance(y, ast.Name) and isinstance(y.ctx, (ast.Store, ast.Del)):
+                out.add(y.id)
+            elif isinstance(y, (ast.FunctionDef, ast.AsyncFunctionDef, ast.ClassDef)) and y is not fn:
+                out.add(y.name)
+            elif isinstance(y, ast.ExceptHandler) and y.name:
+                out.add(y.name)
+            elif isinstance(y, (ast.Import, ast.ImportFrom)):
+                for a in y.names:
+                    out.add((a.asname or a.name).split(".")[0])
+        return out
+
+    def visit_FunctionDef(self, fn):
+        self.shadow.append(self.shadow[-1] | self._locals(fn))
+        fn.body = [self.visit(b) for b in fn.body]
+        self.shadow.pop()
+        return fn
+
+    visit_AsyncFunctionDef = visit_FunctionDef
+
+    def visit_Lambda(self, lam):
+        self.shadow.append(self.shadow[-1] | set(a.arg for a in lam.args.posonlyargs + lam.args.args + lam.args.kwonlyargs))
+        lam.body = self.visit(lam.body)
+        self.shadow.pop()
+        return lam
+
+    def visit_Name(self, n):
+        if len(self.shadow) > 1 and isinstance(n.ctx, ast.Load) and n.id in self.consts and n.id not in self.shadow[-1]:
+            return ast.copy_location(copy.deepcopy(self.consts[n.id]), n)
+        return n
+
+
 def normalise(tree):
+    inl = _InlinePrivateConstants(tree)
+    if inl.consts:
+        tree = inl.visit(tree)
     tree = Normaliser(tree).visit(tree)
     ast.fix_missing_locations(tree)
     return tree
